@@ -164,14 +164,16 @@ contract('reverse_dfs',
                     f"forall(a, 0, len(result), not {inl('result[a]', 'final_states')} and {inl('result[a]', 'V_loop')})",       # 4
                     f"forall(q, 0, len(V_loop), CountI(V_loop, len(V_loop), V_loop[q]) > 0)",                                    # 5
                     f"forall(q, 0, len(V_loop), {inl('V_loop[q]', 'final_states')} or CountI(result, len(result), V_loop[q]) > 0)",   # 6
-                    f"forall(q, 0, len(V_loop), {inl('V_loop[q]', 'final_states')} or {inl('V_loop[q]', 'result')})"],            # 7
+                    f"forall(q, 0, len(V_loop), {inl('V_loop[q]', 'final_states')} or {inl('V_loop[q]', 'result')})",            # 7 -> 8
+                    "forall(x, CountI(FNL, len(FNL), x) <= 1)",                                                                    # 9
+                    distinct('FNL')],                                                                                              # 10
              use={0: ["L_FNI_len(V_loop, final_states, len(V_loop))"],
                   1: ["forall(x, L_distinct_le1(V_loop, len(V_loop), x))"],
                   2: ["forall(x, L_FNI_count(V_loop, final_states, len(V_loop), x))"],
                   4: ["forall(x, L_CountI_mem(result, len(result), x))"],
                   5: ["forall(x, L_CountI_mem(V_loop, len(V_loop), x))"],
                   6: ["forall(x, L_CountI_mem(V_loop, len(V_loop), x))"],
-                  8: ["forall(x, L_CountI_mem(result, len(result), x))"]},
-             isolate={8: [0, 3, 7]}),
-         use_post={0: ["L_le1_distinct(FNL, len(FNL))"]},
+                  8: ["forall(x, L_CountI_mem(result, len(result), x))"],
+                  10: ["L_le1_distinct(FNL, len(FNL))"]},
+             isolate={8: [0, 3, 7], 9: [1, 2], 10: [0, 9]}),
          ghost_after_loop={0: [('V_loop', LI, SRF)]}, ghost_after_comp={0: 'FNL'})
